@@ -13,8 +13,9 @@
 (* to 3 / 4 source lines, invariants of AsCore_MC checked on the way.      *)
 (* AsCore_GenS.cfg / AsCore_GenS4.cfg: the same over SymAlpha (statements  *)
 (* of the symbol table).  AsCore_GenM*.cfg: macro family.  AsCore_GenD.cfg:*)
-(* the Directed programs.  AsCore_Sim.cfg: -simulate, longer programs over *)
-(* both alphabets (8 lines, 60 steps).                                     *)
+(* the Directed programs.  AsCore_GenX.cfg / AsCore_GenX4.cfg: EXPECT /    *)
+(* ENDEXPECT / END / IFDEF family (ExpAlpha, 3 / 4 lines).  AsCore_Sim.cfg:*)
+(* -simulate, longer programs over all alphabets (8 lines, 60 steps).      *)
 (***************************************************************************)
 EXTENDS AsCore_MC, Json
 
